@@ -16,10 +16,10 @@ impl Monitor for C10 {
     fn gens(&self, tier: Tier) -> Vec<Gen> {
         vec![
             // region x front x uplink DR slot(8) x offset(8) x rx-delay class(4)
-            gen("data-grid", 9 * 3 * 8 * 8 * 4 * tier.pick(1, 6, 0)),
-            gen("fixed-channels", 2 * 3 * 72 * tier.pick(1, 4, 0)),
-            gen("join-windows", tier.pick(3_000, 100_000, 4)),
-            gen("histories", tier.pick(2_000, 100_000, 4)),
+            gen("data-grid", 9 * 3 * 8 * 8 * 4 * tier.pick(1, 60, 0)),
+            gen("fixed-channels", 2 * 3 * 72 * tier.pick(1, 40, 0)),
+            gen("join-windows", tier.pick(3_000, 1_000_000, 4)),
+            gen("histories", tier.pick(2_000, 1_000_000, 4)),
         ]
     }
     fn rule(&self) -> String {
